@@ -75,6 +75,9 @@ def run(ctx):
     cases = srcref_cases.all_cases()
     # the same tour with the package reached through a symbolic link (linked site-packages, editable installs)
     cases = cases + [("tour-package-through-link", "linked", c[2], c[3], c[4]) for c in cases if c[0] == "tour-lf"][:1]
+    # ... and through an absolute but not normalised sys.path entry inserted at run time
+    # (sys.path.insert(0, os.path.join(HERE, "..", "nada-dsl")))
+    cases = cases + [("tour-package-through-unnormalised-path", "unnormalised", c[2], c[3], c[4]) for c in cases if c[0] == "tour-lf"][:1]
     d = tempfile.mkdtemp(prefix="nadaverif_c19_")
     os.symlink(vlib.REPO, os.path.join(d, "link_to_repo"))
     total_items, nviol = 0, 0
@@ -94,7 +97,9 @@ def run(ctx):
                     f.write(ftext)
             rc, out, err, dt = vlib.run([vlib.PY, os.path.join(vlib.VERIF, "tools", "run_one.py"), path, "--script"], 120,
                                         cwd=d, env=(dict(vlib.impl_env(), PYTHONPATH=os.path.join(d, "link_to_repo"))
-                                                    if name == "tour-package-through-link" else vlib.impl_env()))
+                                                    if name == "tour-package-through-link" else
+                                                    dict(vlib.impl_env(), PYTHONPATH="", VERIF_LIBPATH=os.path.join(vlib.REPO, "tests", ".."))
+                                                    if name == "tour-package-through-unnormalised-path" else vlib.impl_env()))
             lines_ = [l for l in out.splitlines() if l.startswith("{")]
             if not lines_:
                 raise RuntimeError(f"run_one failed on {name}: {vlib.clean_noise(err)[-500:]}")
